@@ -17,7 +17,7 @@ import time
 import numpy as np
 
 import vf.repoenv  # noqa: F401
-from vf.common import HELD, INCONCLUSIVE, VIOLATED, Run, case_hash, main_wrapper, run_pool, seed
+from vf.common import wall_budget, HELD, INCONCLUSIVE, VIOLATED, Run, case_hash, main_wrapper, run_pool, seed
 
 PID = "C08"
 CELLS = ["interval", "triangle", "quadrilateral", "tetrahedron", "hexahedron"]
@@ -312,7 +312,7 @@ def main(tier, replay=None):
         import json
 
         cases = [json.load(open(replay))["replay"]["case"]]
-    results = run_pool("c08", cases, per_case_timeout=400, chunk=2, deadline=time.time() + (480 if tier == "quick" else 3000))
+    results = run_pool("c08", cases, per_case_timeout=400, chunk=2, deadline=time.time() + wall_budget(tier, 480, 3000))
     for r in results:
         run.add(r)
     run.require("clean_runs_asan", 30 if not replay else 1)
